@@ -601,6 +601,25 @@ def _memokey(f):
             and dotted(x.func.value) == table for x in ast.walk(fn))
         if not consulted or not tests_first:
             continue
+        # a memo fills the table where the look-up failed, and only there
+        from .util import path_conditions as _pc
+        pcs = _pc(fn, st)
+        on_miss = any((norm(ast.parse(t_, mode="eval").body.left) == ktxt
+                       if isinstance(ast.parse(t_, mode="eval").body, ast.Compare) else False)
+                      and table in t_ and ((" not in " in t_ and pol) or (" in " in t_ and " not in " not in t_
+                                                                           and not pol))
+                      for t_, pol in pcs) or any(
+            isinstance(h, ast.ExceptHandler) and h.type is not None and "KeyError" in ast.unparse(h.type)
+            and any(y is st for b in h.body for y in ast.walk(b)) for h in ast.walk(fn)) or any(
+            " is None" in t_ or " is not None" in t_ for t_, pol in pcs) or any(
+            isinstance(t_, ast.Try) and any(
+                h.type is not None and "KeyError" in ast.unparse(h.type)
+                and not any(isinstance(y, (ast.Return, ast.Raise)) for b in h.body for y in ast.walk(b))
+                for h in t_.handlers)
+            and any(isinstance(y, ast.Return) for b in t_.body for y in ast.walk(b))
+            for t_ in ast.walk(fn))
+        if not on_miss:
+            continue
         # not a memo: a registry refuses a key that is already there, a grouping table
         # extends the entry it finds
         refuses = any(
@@ -682,6 +701,11 @@ def _memokey(f):
             elif isinstance(e, ast.Tuple):
                 for x_ in e.elts:
                     from_key(x_, depth)
+                # an id together with something else (the phase it belongs to) names its owner
+                if len(e.elts) > 1:
+                    for x_ in e.elts:
+                        if isinstance(x_, ast.Attribute) and x_.attr == "id" and isinstance(x_.value, ast.Name):
+                            fixed.add(x_.value.id)
             elif isinstance(e, ast.Call) and isinstance(e.func, ast.Name) and e.func.id in (
                     "frozenset", "tuple", "sorted", "str", "repr", "set", "list") and len(e.args) == 1:
                 from_key(e.args[0], depth)
@@ -864,6 +888,16 @@ def _identity(f):
             if any(isinstance(o, ast.Name) for o in ops):
                 continue            # a sentinel object held in a name
             if all(isinstance(o, ast.Call) and dotted(o.func) == "type" for o in ops):
+                continue
+            # a sentinel that is an attribute of a class (inspect.Parameter.empty, an enum
+            # member) or a class itself is compared by identity on purpose
+            def sentinel(o):
+                d = dotted(o)
+                if not d or "." not in d:
+                    return False
+                parts = d.split(".")
+                return parts[-1][:1].isupper() or parts[-2][:1].isupper()
+            if any(sentinel(o) for o in ops):
                 continue
             out.append((x, f"{norm(x, 60)}: identity comparison of values (equal strings need not "
                            f"be the same object)"))
